@@ -138,7 +138,7 @@ func genTokenRace(rt *rapid.T) Plan {
 const ruleTokenRace = "plans against a real http2Client and a scripted h2peer server (same executor and oracles as unit admission): initial MAX_CONCURRENT_STREAMS 1..3 filled with streams, then 1-3/1-10 gadgets mixed with ops of the general mix; " +
 	"a gadget starts 1-4 NewStream calls that must wait and ends the context of a waiter in the same scheduling step as a quota release (GOMAXPROCS=1, nowait-fused ops): " +
 	"close-then-cancel (the waiter has been handed the one wake-up token), cancel-then-close, the same with other waiters parked in the check-then-wait window (token buffered), all waiters parked + close + cancel + release (both select arms ready), " +
-	"a close at exactly the virtual instant of a waiter's deadline, a SETTINGS raise fused with a cancel. non-trivial = a NewStream call that had been blocked returned a stream although its context had already ended (it took the quota wake-up with a done context)"
+	"a close at exactly the virtual instant of a waiter's deadline, a SETTINGS raise fused with a cancel. non-trivial = within one scheduling step the plan ended the context of a blocked NewStream call and released stream quota while >= 2 calls were blocked, or a NewStream call that had been blocked returned a stream although its context had already ended (class token_taken_by_waiter_with_done_context: it took the quota wake-up with a done context)"
 
 func runTokenRace(t *testing.T, p Plan) vk.Result { return runUnit(t, p, true) }
 
